@@ -5,7 +5,8 @@ package congestion
 //
 // Reference model (all of it is in this file):
 //   * a ledger of the outstanding retransmittable packets (bytes in flight),
-//   * the current full packet size (initial size + 80 per MTU increase),
+//   * the current full packet size (initial size, or the size a start-state MTU increase
+//     set, + the step of every MTU increase of the history),
 //   * the largest retransmittable packet number that had been sent when the window was
 //     last cut in response to a loss (the "window of packets" of the statement),
 //   * for the pacer parts: one record per authorised send = start of an interval, with the
@@ -21,8 +22,15 @@ package congestion
 //      start - more than half the window in use); an MTU increase may lift cwnd to the new
 //      two-packet floor
 //   P  for every interval [t_i, t_j] between two authorised sends: bytes authorised in it
-//      <= burst + 1.25*bw*(t_j-t_i) + one datagram, bw = largest estimate in the interval,
-//      burst = max(10 datagrams, 1.25*bw*2ms)
+//      <= burst + 1.25*bw*(t_j-t_i), bw = largest estimate in the interval,
+//      burst = max(10 datagrams of the largest datagram size in force in the interval,
+//      1.25*bw*2ms). A packet counts as authorised the way the send loop decides it
+//      (sentPacketHandler.SendMode): the sender's HasPacingBudget(now) is true - that
+//      releases a packet of up to the CURRENT maximum datagram size - or, for a smaller
+//      packet, the budget covers its size. Send opportunities arrive at the pacing timer
+//      (TimeUntilSend), at arbitrary clock steps, and at the earliest instant at which
+//      HasPacingBudget opens ("advgate": an ACK / application write that wakes the send
+//      loop before the timer).
 
 import (
 	"fmt"
@@ -158,6 +166,10 @@ type c20Cfg struct {
 	fill      bool  // "fill": full-size packets until the window is used up
 	burst     bool  // "burst": full-size packets back to back for as long as the pacer authorises them
 	paced     int   // "paced": this many times { wait until TimeUntilSend; send a full-size packet if authorised }
+	early     int   // "early": this many times { advance to the earliest instant at which HasPacingBudget is true; send a full-size packet }
+	advGate   bool  // "advgate": advance the clock to the earliest instant at which HasPacingBudget is true
+	startMTU  protocol.ByteCount   // if > 0: start state = path MTU discovery already raised the datagram size to this value
+	mtuSteps  []protocol.ByteCount // sizes of the MTU increases of the alphabet (nil: +80)
 	acks      []int // 0 oldest, 1 newest, 2 all outstanding (one ACK frame)
 	losses    []int // 0 oldest, 1 newest
 	rtts      []time.Duration
@@ -208,7 +220,50 @@ func newC20Inst(cfg *c20Cfg) *c20Inst {
 	}
 	in.s = newCubicSender(in.clk, in.rtt, &utils.ConnectionStats{}, cfg.reno, c20MDS0, init, c20MaxPkts*c20MDS0, nil)
 	in.minRTTAck = in.rtt.MinRTT()
+	if cfg.startMTU > 0 {
+		in.mds = cfg.startMTU
+		in.s.SetMaxDatagramSize(in.mds)
+	}
 	return in
+}
+
+func (c *c20Cfg) mtuStepList() []protocol.ByteCount {
+	if c.mtuSteps == nil {
+		return []protocol.ByteCount{c20MTUStep}
+	}
+	return c.mtuSteps
+}
+
+// gateOpens returns the earliest instant after now at which the sender's HasPacingBudget
+// reports true (0: it is open now, or it does not open within 2^40 ns). Pure reads only.
+// The bisection assumes nothing about the gate: whatever it returns is an instant at
+// which the gate is open while it was closed one nanosecond earlier.
+func (in *c20Inst) gateOpens() monotime.Time {
+	now := in.clk.now
+	if in.s.HasPacingBudget(now) {
+		return 0
+	}
+	lo, hi := now, monotime.Time(0)
+	for k := 0; k <= 40; k++ {
+		t := now.Add(time.Duration(1) << k)
+		if in.s.HasPacingBudget(t) {
+			hi = t
+			break
+		}
+		lo = t
+	}
+	if hi == 0 {
+		return 0
+	}
+	for hi.Sub(lo) > 1 {
+		mid := lo.Add(hi.Sub(lo) / 2)
+		if in.s.HasPacingBudget(mid) {
+			hi = mid
+		} else {
+			lo = mid
+		}
+	}
+	return hi
 }
 
 func (in *c20Inst) algo() string {
@@ -248,6 +303,9 @@ func (in *c20Inst) Ops() []explore.Op {
 	if c.paced > 0 && !in.hugeUsed {
 		ops = append(ops, explore.Op{N: "paced"})
 	}
+	if c.early > 0 && !in.hugeUsed {
+		ops = append(ops, explore.Op{N: "early"})
+	}
 	if c.fill && in.led.inflight < in.s.GetCongestionWindow() {
 		ops = append(ops, explore.Op{N: "fill"})
 	}
@@ -268,7 +326,9 @@ func (in *c20Inst) Ops() []explore.Op {
 		}
 	}
 	if in.mtuN < c.maxMTU {
-		ops = append(ops, explore.Op{N: "mtu"})
+		for i := range c.mtuStepList() {
+			ops = append(ops, explore.Op{N: "mtu", A: i})
+		}
 	}
 	if c.rto && in.rtoN < c.maxRTO {
 		ops = append(ops, explore.Op{N: "rto", A: 1}, explore.Op{N: "rto", A: 0})
@@ -284,6 +344,9 @@ func (in *c20Inst) Ops() []explore.Op {
 			if t := in.s.TimeUntilSend(in.led.inflight); t > in.clk.now {
 				ops = append(ops, explore.Op{N: "advpace"})
 			}
+		}
+		if c.advGate && in.gateOpens() != 0 {
+			ops = append(ops, explore.Op{N: "advgate"})
 		}
 	}
 	return ops
@@ -333,7 +396,7 @@ func (in *c20Inst) sample() {
 }
 
 // c20Allowed is the pacer bound of the statement for an interval of dt nanoseconds:
-// one burst + 1.25*bw*dt + one datagram of rounding. ok=false: the bound exceeds 2^63.
+// one burst + 1.25*bw*dt (both rounded up to a whole byte). ok=false: the bound exceeds 2^63.
 func c20Allowed(bw uint64, mds protocol.ByteCount, dt uint64) (protocol.ByteCount, bool) {
 	if bw > 1<<58 {
 		return 0, false
@@ -350,7 +413,7 @@ func c20Allowed(bw uint64, mds protocol.ByteCount, dt uint64) (protocol.ByteCoun
 	if hi != 0 {
 		return 0, false
 	}
-	return protocol.ByteCount(burst + lo/4_000_000_000 + 1 + uint64(mds)), true
+	return protocol.ByteCount(burst + lo/4_000_000_000 + 1), true
 }
 
 // sendOne performs one packet-sent event. Returns whether the pacer authorised it.
@@ -359,8 +422,12 @@ func (in *c20Inst) sendOne(size protocol.ByteCount, retr bool, countPacer bool) 
 	auth := false
 	if countPacer && in.cfg.pacer {
 		in.sample()
-		budget := in.s.pacer.Budget(now)
-		auth = budget >= size
+		// authorisation as the send loop sees it: HasPacingBudget(now) releases one packet of
+		// up to the current maximum datagram size (size <= in.mds always holds here); a
+		// smaller packet is also regarded as authorised when the budget covers it.
+		explore.Must(size <= in.mds, "packet of %d bytes is larger than the datagram size %d", size, in.mds)
+		gate := in.s.HasPacingBudget(now)
+		auth = gate || in.s.pacer.Budget(now) >= size
 		if auth {
 			in.recs = append(in.recs, c20Rec{t: now, bwMax: in.bw(), mdsMax: in.mds})
 			for i := range in.recs {
@@ -372,9 +439,12 @@ func (in *c20Inst) sendOne(size protocol.ByteCount, retr bool, countPacer bool) 
 					if now != r.t {
 						cls = "interval"
 					}
+					if in.mds > c20MDS0 {
+						cls += ":after-mtu-increase"
+					}
 					return true, explore.Failf("pacer-over-authorised:"+in.algo()+":"+cls,
-						"pacer authorised %d bytes in an interval of %d ns (packets sent at %d..%d ns after start); bound: one burst + 1.25*bw*dt + 1 datagram = %d bytes with bw=%d B/s (largest estimate in the interval), datagram size %d",
-						r.sum, now.Sub(r.t), r.t.Sub(c20T0), now.Sub(c20T0), allowed, r.bwMax, r.mdsMax)
+						"pacer authorised %d bytes in an interval of %d ns (packets sent at %d..%d ns after start; the last one: %d bytes, HasPacingBudget=%v, budget %d); bound: one burst + 1.25*bw*dt = %d bytes with bw=%d B/s (largest estimate in the interval), datagram size %d",
+						r.sum, now.Sub(r.t), r.t.Sub(c20T0), now.Sub(c20T0), size, gate, in.s.pacer.Budget(now), allowed, r.bwMax, r.mdsMax)
 				}
 			}
 		}
@@ -480,7 +550,7 @@ func (in *c20Inst) Apply(op explore.Op) *explore.Fail {
 	case "burst":
 		n := 0
 		for ; n < 16; n++ {
-			if in.s.pacer.Budget(in.clk.now) < in.mds {
+			if !in.s.HasPacingBudget(in.clk.now) {
 				break
 			}
 			auth, f := in.sendOne(in.mds, true, true)
@@ -498,7 +568,7 @@ func (in *c20Inst) Apply(op explore.Op) *explore.Fail {
 				in.clk.now = t
 				in.burstDone = false
 			}
-			if in.s.pacer.Budget(in.clk.now) < in.mds {
+			if !in.s.HasPacingBudget(in.clk.now) {
 				continue
 			}
 			if _, f := in.sendOne(in.mds, true, true); f != nil {
@@ -507,6 +577,24 @@ func (in *c20Inst) Apply(op explore.Op) *explore.Fail {
 			n++
 		}
 		in.outcome = fmt.Sprintf("paced n=%d", n)
+	case "early":
+		// the send loop is woken (ACK, application write) as early as the gate allows
+		n, moved := 0, 0
+		for i := 0; i < c.early; i++ {
+			if t := in.gateOpens(); t != 0 {
+				in.clk.now = t
+				in.burstDone = false
+				moved++
+			}
+			if !in.s.HasPacingBudget(in.clk.now) {
+				continue
+			}
+			if _, f := in.sendOne(in.mds, true, true); f != nil {
+				return f
+			}
+			n++
+		}
+		in.outcome = fmt.Sprintf("early n=%d moved=%v before-timer=%v", n, moved > 0, in.clk.now < in.s.TimeUntilSend(in.led.inflight))
 	case "fill":
 		n := 0
 		for in.led.inflight < in.s.GetCongestionWindow() {
@@ -572,13 +660,13 @@ func (in *c20Inst) Apply(op explore.Op) *explore.Fail {
 		cw0, ss0 := in.s.GetCongestionWindow(), in.s.InSlowStart()
 		in.mtuN++
 		old := in.mds
-		in.mds += c20MTUStep
+		in.mds += c.mtuStepList()[op.A]
 		in.s.SetMaxDatagramSize(in.mds)
 		cw1 := in.s.GetCongestionWindow()
 		if cw1 > cw0 && cw1 > 2*in.mds && !c20Limited(in.led.inflight, cw0, old, ss0) {
 			return explore.Failf("cwnd-grows-on-mtu-increase:"+in.algo(), "MTU increase %d -> %d grew cwnd %d -> %d beyond the two-packet floor while not window-limited", old, in.mds, cw0, cw1)
 		}
-		in.outcome = fmt.Sprintf("mtu %s atfloor=%v", c20Delta(cw0, cw1), cw0 == 2*old)
+		in.outcome = fmt.Sprintf("mtu%d %s atfloor=%v", op.A, c20Delta(cw0, cw1), cw0 == 2*old)
 	case "rto":
 		// not an event of the quantifier (and never called by the production code): modelled
 		// as a timeout-loss response that starts a new window of packets.
@@ -607,6 +695,13 @@ func (in *c20Inst) Apply(op explore.Op) *explore.Fail {
 		in.clk.now = t
 		in.burstDone = false
 		in.outcome = fmt.Sprintf("advpace budget-ok=%v", in.s.HasPacingBudget(t))
+	case "advgate":
+		t := in.gateOpens()
+		explore.Must(t > in.clk.now, "advgate not enabled")
+		timer := in.s.TimeUntilSend(in.led.inflight)
+		in.clk.now = t
+		in.burstDone = false
+		in.outcome = fmt.Sprintf("advgate before-timer=%v", t < timer)
 	default:
 		explore.Must(false, "unknown op %v", op)
 	}
